@@ -585,7 +585,14 @@ class StructuredGrid(Grid):
         def trans(data):
             """Transformation."""
             # could be optimized
-            return other.from_canonical(self.to_canonical(data))
+            if np.ndim(data) == len(self.data_shape):
+                return other.from_canonical(self.to_canonical(data))
+            # data with a leading time axis: the canonical form carries
+            # additional axes last
+            if not self.axes_reversed:
+                data = np.moveaxis(data, 0, -1)
+            data = other.from_canonical(self.to_canonical(data))
+            return data if other.axes_reversed else np.moveaxis(data, -1, 0)
 
         # only use trans if grids are compatible but NOT equal
         return None if self == other else trans
